@@ -23,6 +23,7 @@ type retInfo struct {
 	vals  []string
 	st    State
 	pos   token.Pos
+	blk   *ssa.BasicBlock // the block at whose end the function returns on this path
 }
 
 type loopInfo struct {
@@ -766,7 +767,7 @@ func (fr *Frame) run(entryReach string) {
 							vals = append(vals, fr.val(res)...)
 						}
 					}
-					fr.rets = append(fr.rets, retInfo{reach: edges[i], vals: vals, st: sts[i].clone(), pos: ret.Pos()})
+					fr.rets = append(fr.rets, retInfo{reach: edges[i], vals: vals, st: sts[i].clone(), pos: ret.Pos(), blk: p})
 				}
 				fr.splitReturn[b] = true
 			}
